@@ -95,6 +95,17 @@ def main():
         sys.stdout.write(coq_out[-2000:])
         print('BROKEN-CHECK: a theorem of props/%s.v is not closed under the global context' % a.prop)
         sys.exit(2)
+    chk = None
+    if a.tier == 'thorough' and names and not a.replay and os.environ.get('VERIF_NO_COQCHK') != '1':
+        # independent re-check of the property file and everything it depends on, with the axiom summary
+        p = subprocess.run(['coqchk', '-o', '-silent', '-Q', '.', 'PyHam', 'PyHam.props.%s' % a.prop],
+                           cwd=os.path.join(VERIF, 'coq'), stdout=subprocess.PIPE, stderr=subprocess.STDOUT, timeout=3000)
+        out = p.stdout.decode()
+        chk = {'exit': p.returncode, 'axioms_none': '* Axioms: <none>' in out, 'tail': out[-600:]}
+        if p.returncode != 0 or not chk['axioms_none']:
+            sys.stdout.write(out[-2000:])
+            print('BROKEN-CHECK: coqchk does not accept props/%s.vo without axioms' % a.prop)
+            sys.exit(2)
     try:
         if a.replay:
             with open(a.replay) as f:
@@ -132,6 +143,7 @@ def main():
         'counts': dict(ctx.counts),
         'input_distribution': dict(ctx.dist),
         'notes': ctx.notes,
+        'coqchk': chk,
     }
     ev = {'property_id': a.prop, 'tier': a.tier if a.tier in ('quick', 'thorough') else 'quick', 'seed': a.seed,
           'level': 'proof' if names else 'other', 'coverage': cov,
